@@ -57,9 +57,9 @@ Qed.
 Theorem vupdate_single ps total k v ps' w :
   vupdate ps total k v = (ps', Some w) -> vfull ps' = true /\ Forall (fun x => x = w) (versions ps').
 Proof.
-  unfold vupdate. destruct (negb (Nat.eqb total (length ps))); [discriminate|].
-  destruct (vfull (set_slot k (Some v) ps)) eqn:F; cbn [negb]; [|discriminate].
-  destruct (single_version (versions (set_slot k (Some v) ps))) as [w'|] eqn:S; [|discriminate].
+  unfold vupdate. set (ps1 := if Nat.eqb total (length ps) then _ else _).
+  destruct (vfull ps1) eqn:F; cbn [negb]; [|discriminate].
+  destruct (single_version (versions ps1)) as [w'|] eqn:S; [|discriminate].
   intros [= <- <-]. split; [exact F|apply single_version_spec, S].
 Qed.
 
@@ -71,8 +71,183 @@ Proof.
   - destruct L as [->|[vs ->]]; [discriminate|]. exists vs. exact H.
   - destruct (vupdate ps total k v) as [ps' r] eqn:U. eapply IH; [|exact H].
     destruct r as [w'|]; [|exact L].
-    right. unfold vupdate in U. destruct (negb (Nat.eqb total (length ps))); [discriminate|].
-    destruct (negb (vfull (set_slot k (Some v) ps))); [discriminate|].
-    destruct (single_version (versions (set_slot k (Some v) ps))) eqn:S; [|discriminate].
+    right. unfold vupdate in U. set (ps1 := if Nat.eqb total (length ps) then _ else _) in U.
+    destruct (negb (vfull ps1)); [discriminate|].
+    destruct (single_version (versions ps1)) eqn:S; [|discriminate].
     injection U as _ <-. eexists. symmetry. exact S.
 Qed.
+
+(* ---------------------------------------------------------------- the fetch loop terminates *)
+Definition nones (ps : vset) : nat := length (filter (fun o => match o with None => true | Some _ => false end) ps).
+Definition clean (v : nat) (ps : vset) : Prop := forall w, In (Some w) ps -> w = v.
+
+Lemma vfull_nones ps : vfull ps = true <-> nones ps = 0.
+Proof.
+  unfold nones. induction ps as [|[x|] t IH]; cbn; [tauto|exact IH|]. split; [discriminate|intro H; discriminate H].
+Qed.
+
+Lemma first_none_none ps : first_none ps = None <-> nones ps = 0.
+Proof.
+  unfold nones. induction ps as [|[x|] t IH]; cbn; [tauto| |split; intro H; discriminate H].
+  destruct (first_none t); [split; [discriminate|]|tauto]. intro H. apply IH in H. discriminate.
+Qed.
+
+Lemma set_slot_length n x ps : length (set_slot n x ps) = length ps.
+Proof. revert n; induction ps as [|a t IH]; intros [|n]; cbn; auto. Qed.
+
+(* filling the first missing slot: one fewer missing, and nothing else changes *)
+Lemma fill_first ps k v : first_none ps = Some k ->
+  nones (set_slot k (Some v) ps) = nones ps - 1 /\ 1 <= nones ps /\
+  In (Some v) (set_slot k (Some v) ps) /\
+  (forall w, In (Some w) (set_slot k (Some v) ps) -> w = v \/ In (Some w) ps).
+Proof.
+  unfold nones. revert k; induction ps as [|[x|] t IH]; intros k H; cbn in H; [discriminate| |].
+  - destruct (first_none t) as [k'|] eqn:E; [|discriminate]. injection H as <-.
+    destruct (IH k' eq_refl) as [A [B [C D]]]. cbn. repeat split; auto.
+    intros w [Hw|Hw]; [right; left; exact Hw|]. destruct (D w Hw) as [?|?]; [left; assumption|right; right; assumption].
+  - injection H as <-. cbn. repeat split; try lia; auto.
+    intros w [Hw|Hw]; [left; congruence|right; right; exact Hw].
+Qed.
+
+Lemma versions_in ps w : In w (versions ps) <-> In (Some w) ps.
+Proof.
+  unfold versions. rewrite in_flat_map. split.
+  - intros [[x|] [Hx Hw]]; cbn in Hw; [destruct Hw as [<-|[]]; exact Hx|destruct Hw].
+  - intro H. exists (Some w). split; [exact H|left; reflexivity].
+Qed.
+
+Lemma single_version_all v vs : vs <> [] -> (forall w, In w vs -> w = v) -> single_version vs = Some v.
+Proof.
+  destruct vs as [|a t]; [congruence|]. intros _ H. cbn.
+  assert (a = v) as -> by (apply H; left; reflexivity).
+  replace (forallb (Nat.eqb v) t) with true; [reflexivity|].
+  symmetry. apply forallb_forall. intros x Hx. apply Nat.eqb_eq. symmetry. apply H. right. exact Hx.
+Qed.
+
+Lemma versions_nonempty ps w : In (Some w) ps -> versions ps <> [].
+Proof. intros H E. apply versions_in in H. rewrite E in H. destruct H. Qed.
+
+Lemma nones_repeat n : nones (repeat None n) = n.
+Proof. unfold nones. induction n; cbn; auto. Qed.
+
+Lemma set_slot_some_spec ps : forall k v, k < length ps -> nth_error ps k = Some None ->
+  nones (set_slot k (Some v) ps) = nones ps - 1 /\ In (Some v) (set_slot k (Some v) ps) /\
+  (forall w, In (Some w) (set_slot k (Some v) ps) -> w = v \/ In (Some w) ps).
+Proof.
+  unfold nones. induction ps as [|a t IH]; intros [|k] v L E; cbn in *; try lia.
+  - injection E as ->. cbn. repeat split; try lia; auto. intros w [Hw|Hw]; [left; congruence|right; right; exact Hw].
+  - destruct (IH k v ltac:(lia) E) as [A [B C]]. destruct a as [x|]; cbn.
+    + repeat split; auto. intros w [Hw|Hw]; [right; left; exact Hw|]. destruct (C w Hw); auto.
+    + assert (1 <= length (filter (fun o : option nat => match o with None => true | Some _ => false end) t)).
+      { clear - E. revert k E. induction t as [|b t IH]; intros [|k] E; cbn in *; try discriminate.
+        - injection E as ->. cbn. lia.
+        - destruct b; cbn; [eapply IH; exact E|lia]. }
+      repeat split; try lia; auto. intros w [Hw|Hw]; [discriminate|]. destruct (C w Hw); auto.
+Qed.
+
+Lemma nth_error_repeat {A} (x : A) n k : k < n -> nth_error (repeat x n) k = Some x.
+Proof. revert k; induction n; intros [|k] H; cbn; try lia; auto. apply IHn. lia. Qed.
+
+Lemma in_repeat_none n w : ~ In (Some w) (repeat (@None nat) n).
+Proof. intro H. apply repeat_spec in H. discriminate. Qed.
+
+(* a new set: only this fragment, of this version *)
+Lemma vinit_spec total k v : k < total ->
+  length (vinit total k v) = total /\ nones (vinit total k v) = total - 1 /\
+  clean v (vinit total k v) /\ In (Some v) (vinit total k v).
+Proof.
+  intro H. unfold vinit.
+  destruct (set_slot_some_spec (repeat None total) k v) as [A [B C]];
+    [rewrite repeat_length; exact H|apply nth_error_repeat; exact H|].
+  rewrite set_slot_length, repeat_length, A, nones_repeat. repeat split; auto.
+  intros w Hw. destruct (C w Hw) as [E|E]; [exact E|]. exfalso. exact (in_repeat_none _ _ E).
+Qed.
+
+Lemma first_none_lt ps k : first_none ps = Some k -> k < length ps.
+Proof.
+  revert k; induction ps as [|[x|] t IH]; intros k H; cbn in *; [discriminate| |injection H as <-; lia].
+  destruct (first_none t) eqn:E; [|discriminate]. injection H as <-. specialize (IH _ eq_refl). lia.
+Qed.
+
+(* phase 2: every stored fragment is of the controller's version: one exchange per missing slot *)
+Lemma clean_completes total v : forall m ps n fuel,
+  length ps = total -> clean v ps -> nones ps = m -> 1 <= m -> m <= fuel ->
+  fetch_loop fuel ps total v n = Got v (n + m).
+Proof.
+  induction m as [|m IH]; intros ps n fuel L C N M F; [lia|].
+  destruct fuel as [|fuel]; [lia|]. cbn [fetch_loop].
+  destruct (first_none ps) as [k|] eqn:E; [|apply first_none_none in E; lia].
+  destruct (fill_first ps k v E) as [A [_ [B D]]].
+  unfold vupdate. rewrite L, Nat.eqb_refl.
+  set (ps1 := set_slot k (Some v) ps) in *.
+  assert (C1 : clean v ps1) by (intros w Hw; destruct (D w Hw) as [->|H]; [reflexivity|apply C, H]).
+  destruct (vfull ps1) eqn:Fu; cbn [negb].
+  - rewrite (single_version_all v); [|eapply versions_nonempty; exact B|intros w Hw; apply C1, versions_in, Hw].
+    apply vfull_nones in Fu. f_equal. lia.
+  - assert (nones ps1 <> 0) by (intro Z; apply vfull_nones in Z; congruence).
+    rewrite (IH ps1 (S n) fuel); [f_equal; lia|unfold ps1; rewrite set_slot_length; exact L|exact C1|lia|lia|lia].
+Qed.
+
+(* phase 1: whatever stale fragments are stored: fill the missing slots; a mixed set is thrown
+   away but for the fragment just received, and phase 2 finishes the job *)
+Lemma dirty_completes total v : forall m ps n fuel,
+  length ps = total -> nones ps = m -> 1 <= m -> m + total <= fuel ->
+  exists n', fetch_loop fuel ps total v n = Got v n' /\ n' <= n + m + total.
+Proof.
+  induction m as [|m IH]; intros ps n fuel L N M F; [lia|].
+  destruct fuel as [|fuel]; [lia|]. cbn [fetch_loop].
+  destruct (first_none ps) as [k|] eqn:E; [|apply first_none_none in E; lia].
+  destruct (fill_first ps k v E) as [A [_ [B D]]]. pose proof (first_none_lt ps k E) as K.
+  unfold vupdate. rewrite L, Nat.eqb_refl.
+  set (ps1 := set_slot k (Some v) ps) in *.
+  destruct (vfull ps1) eqn:Fu; cbn [negb].
+  - destruct (single_version (versions ps1)) as [w|] eqn:SV.
+    + apply single_version_spec in SV. rewrite Forall_forall in SV.
+      rewrite (SV v) by (apply versions_in; exact B). exists (S n). split; [reflexivity|lia].
+    + destruct (vinit_spec total k v ltac:(lia)) as [I1 [I2 [I3 I4]]].
+      destruct (Nat.eq_dec total 1) as [T1|T1].
+      * exfalso. (* a one-fragment set cannot be mixed *)
+        assert (L1 : length ps1 = 1) by (unfold ps1; rewrite set_slot_length; lia).
+        destruct ps1 as [|a [|b t]]; cbn in L1; try lia.
+        destruct B as [->|[]]. cbn in SV. discriminate.
+      * rewrite (clean_completes total v (total - 1) (vinit total k v) (S n) fuel); try assumption; try lia.
+        exists (S n + (total - 1)). split; [reflexivity|lia].
+  - assert (nones ps1 <> 0) by (intro Z; apply vfull_nones in Z; congruence).
+    destruct (IH ps1 (S n) fuel) as [n' [G Hn]]; [unfold ps1; rewrite set_slot_length; exact L|lia|lia|lia|].
+    exists n'. split; [exact G|lia].
+Qed.
+
+Lemma set_slot0_none ps : ps <> [] -> first_none (set_slot 0 None ps) = Some 0 /\ 1 <= nones (set_slot 0 None ps).
+Proof. destruct ps as [|a t]; [congruence|]. intros _. unfold nones. cbn. split; [reflexivity|lia]. Qed.
+
+Lemma nones_le_length ps : nones ps <= length ps.
+Proof. unfold nones. induction ps as [|[x|] t IH]; cbn; lia. Qed.
+
+(* an undisturbed fetch -- the controller holds one version throughout -- always ends with that
+   version, after at most 2 * total exchanges, whatever stale or foreign fragments the zone held
+   before: a failed, abandoned or overtaken transfer leaves nothing behind that could stop it *)
+Theorem fetch_completes ps total v : ps <> [] -> 1 <= total ->
+  exists n, fetch ps total v = Got v n /\ n <= 2 * total.
+Proof.
+  intros P T. unfold fetch. destruct (set_slot0_none ps P) as [F0 N0].
+  set (ps0 := set_slot 0 None ps) in *.
+  destruct (Nat.eq_dec (length ps0) total) as [L|L].
+  - pose proof (nones_le_length ps0) as Le.
+    destruct (dirty_completes total v (nones ps0) ps0 0 (2 * total) L eq_refl N0 ltac:(lia)) as [n' [G Hn]].
+    exists n'. split; [exact G|lia].
+  - destruct total as [|total]; [lia|]. replace (2 * S total) with (S (S (2 * total))) by lia. remember (S (2 * total)) as f eqn:Ef.
+    cbn [fetch_loop]. rewrite F0. unfold vupdate.
+    replace (Nat.eqb (S total) (length ps0)) with false by (symmetry; apply Nat.eqb_neq; lia).
+    destruct (vinit_spec (S total) 0 v ltac:(lia)) as [I1 [I2 [I3 I4]]].
+    destruct (vfull (vinit (S total) 0 v)) eqn:Fu; cbn [negb].
+    + rewrite (single_version_all v); [|eapply versions_nonempty; exact I4|intros w Hw; apply I3, versions_in, Hw].
+      exists 1. split; [reflexivity|lia].
+    + assert (nones (vinit (S total) 0 v) <> 0) by (intro Z; apply vfull_nones in Z; congruence).
+      rewrite (clean_completes (S total) v (S total - 1) (vinit (S total) 0 v) 1 f); try assumption; try lia.
+      exists (1 + (S total - 1)). split; [reflexivity|lia].
+Qed.
+
+Lemma fetch_examples :
+  fetch [Some 1; Some 1; Some 1] 3 2 = Got 2 3 /\ fetch [Some 1; Some 1; Some 1] 1 2 = Got 2 1 /\
+  fetch [None] 4 7 = Got 7 4 /\ fetch [Some 1; Some 1; None] 3 3 = Got 3 4.
+Proof. vm_compute. repeat split. Qed.
